@@ -2,7 +2,7 @@
 algorithm models (oracle tables = "what exactly was fed to the primitive"),
 Coq term printers for the shared model coq/model/Jws.v."""
 from __future__ import annotations
-import hashlib, hmac as _hmac, json, contextlib
+import hashlib, hmac as _hmac, json, contextlib, time
 import lib
 from lib import c_hex, c_str, c_Z, c_N, c_bool, c_list, c_opt, c_pv, c_exn, exn_class
 
@@ -340,9 +340,38 @@ def pubkey_of(key):
 
 def finish_correspondence(ctx, pid, cases, meta, ok, log, check, show, ctype):
     """evaluate the cases in Coq and turn disagreements / broken proofs into violations"""
+    SH, MC = 100, 160000
     ev = lib.CoqEval(["From Model Require Import Jws JwsOracle %sCases." % pid, "From Gen Require Import Tables."],
-                     ctype, check, show, shard=100, max_chars=160000)
+                     ctype, check, None, shard=SH, max_chars=MC)   # no [show]: its output (whole tokens) can exceed the pipe buffer
     res = ev.run(cases, jobs=8)
+    # a coqc killed by the OS (no output: memory pressure from parallel builds) is retried alone
+    if any(not out.strip() or "TIMEOUT" in out for si, out in res["errors"]):
+        bounds, start, size = {}, 0, 0
+        for i, c in enumerate(cases):
+            if i > start and (i - start >= SH or size + len(c) > MC):
+                bounds[start] = i
+                start, size = i, 0
+            size += len(c)
+        bounds[start] = len(cases)
+        still = []
+        for si, out in res["errors"]:
+            if (out.strip() and "TIMEOUT" not in out) or si not in bounds:
+                still.append((si, out))
+                continue
+            sub = None
+            for attempt in range(3):
+                sub = ev.run(cases[si:bounds[si]], jobs=1)
+                if not sub["errors"]:
+                    break
+                time.sleep(5)
+            if sub["errors"]:
+                still.append((si, sub["errors"][0][1]))
+            else:
+                res["evaluated"] += sub["evaluated"]
+                res["failing"] += [si + j for j in sub["failing"]]
+                for k2, v2 in sub["shows"].items():
+                    res["shows"][si + k2] = v2
+        res["errors"] = still
     ctx.coverage["traces_validated_against_impl"] = res["evaluated"]
     ctx.coverage["disagreements_checked"] = len(res["failing"])
     direct = len(ctx.violations) + len(ctx.known_hits)
